@@ -4,6 +4,7 @@ import sys
 import os
 sys.path.insert(0, os.path.dirname(os.path.dirname(os.path.abspath(__file__))))
 import json
+import z3
 
 from lib import codec as C
 from lib.codec import asn1tools
@@ -122,8 +123,25 @@ def snapshot(v):
     if isinstance(v, (str, bytes, int, float, bool, type(None))):
         return v
     if isinstance(v, SymBytes):
-        return ('sb', tuple(c.get_id() for c in v.c))
+        return ('sb', tuple(v.c))
     return ('id', id(v))
+
+
+def snapshot_diff(a, b, conds):
+    """structural comparison of two snapshots; symbolic cells contribute z3 equalities.
+    Returns False on a shape difference."""
+    if isinstance(a, tuple) and isinstance(b, tuple) and a[:1] == ('sb',) and b[:1] == ('sb',):
+        if len(a[1]) != len(b[1]):
+            return False
+        for x, y in zip(a[1], b[1]):
+            if x is not y:
+                conds.append(x == y)
+        return True
+    if isinstance(a, tuple) and isinstance(b, tuple):
+        if len(a) != len(b):
+            return False
+        return all(snapshot_diff(x, y, conds) for x, y in zip(a, b))
+    return a == b
 
 
 def jobs_for(tier):
@@ -198,6 +216,18 @@ def make_harness(job):
                 state['what'] = options[k][1]
             ctx.describe = lambda m: {'op': op, 'arg': jsonable(concretize(state.get('arg', arg), m)),
                                       'second': jsonable(concretize(state.get('w'), m))}
+            def frozen(x):
+                if isinstance(x, SymBytes):
+                    return SymBytes(list(x.c))
+                if isinstance(x, dict):
+                    return {k: frozen(y) for k, y in x.items()}
+                if isinstance(x, list):
+                    return [frozen(y) for y in x]
+                if isinstance(x, tuple):
+                    return tuple(frozen(y) for y in x)
+                return x
+            if arg is not None:
+                state['arg'] = frozen(arg)       # the argument as passed (for the witness)
             before = snapshot(arg) if arg is not None else None
             mon.writes.clear()
             mon.active = True
@@ -232,9 +262,13 @@ def make_harness(job):
                 ctx.violation('shared-state-written-during-call', '%s: %s' % (op, sorted(set(mon.writes))[:6]))
                 return
             ctx.res.proved += 1
-            if before is not None and snapshot(arg) != before:
-                ctx.violation('argument-modified', op)
-                return
+            if before is not None:
+                conds = []
+                if not snapshot_diff(before, snapshot(arg), conds):
+                    ctx.violation('argument-modified', op)
+                    return
+                if conds and not ctx.prove('argument-unmodified', z3.And(conds), info=op):
+                    return
             ctx.res.proved += 1
             if fingerprint(cj.spec) != fp0:
                 ctx.violation('compiled-specification-differs-after-call', '%s (%s)' % (op, first))
@@ -251,7 +285,21 @@ def replay(v):
     used = asn1tools.compile_string(tpl['text'], job['codec'])
     fresh = asn1tools.compile_string(tpl['text'], job['codec'])
     fp0 = fingerprint(used)
+    def mutable(x):
+        """the same value with bytearray instead of bytes leaves (both are accepted input types;
+        the symbolic run models the mutable one)"""
+        if isinstance(x, bytes):
+            return bytearray(x)
+        if isinstance(x, dict):
+            return {k: mutable(y) for k, y in x.items()}
+        if isinstance(x, list):
+            return [mutable(y) for y in x]
+        if isinstance(x, tuple):
+            return tuple(mutable(y) for y in x)
+        return x
     arg = unjson(inp['arg'])
+    if job['op'].startswith('encode') or job['op'] == 'decode-truncated':
+        arg = mutable(arg)
     import copy
     keep = copy.deepcopy(arg)
     name = tpl['type']
@@ -268,10 +316,10 @@ def replay(v):
                 pass
     else:
         try:
-            if job['op'].startswith('encode'):
+            if job['op'].startswith('encode') or job['op'] == 'decode-truncated':
                 used.encode(name, arg, check_types=True, check_constraints=True)
             else:
-                used.decode(name, arg if isinstance(arg, bytes) else b'')
+                used.decode(name, arg if isinstance(arg, (bytes, bytearray)) else b'')
         except Exception:
             pass
     if job['op'] != 'second' and arg != keep:
